@@ -69,8 +69,11 @@ def py_truediv(eng, a, b):
     if getattr(eng, 'assume_nonzero_div', False):
         eng.assumptions_used.add('division safety not checked in this program: symbolic denominators are assumed non-zero')
         eng.assume(to_real(b) != 0)
-    elif eng.branch(to_real(b) == 0):
+    elif eng.branch(to_real(b) == 0, precise=True):
         raise PyExc('ZeroDivisionError', 'division by zero')
+    q = V.exact_quotient(to_real(a), to_real(b))        # b != 0 here: a / b == q when b divides a as a polynomial
+    if q is not None:
+        return concretize(q)
     return concretize(to_real(a) / to_real(b))
 
 
@@ -1264,7 +1267,7 @@ def m_sqrt(eng, x):
         if isqrt(n) ** 2 == n and isqrt(d) ** 2 == d:
             return Fraction(isqrt(n), isqrt(d))
         x = to_real(f)
-    if eng.branch(to_real(x) < 0):
+    if eng.branch(to_real(x) < 0, precise=True):
         raise PyExc('ValueError', 'math domain error')
     y = z3.Real(eng.fresh('sqrt'))
     eng.assume(z3.And(y >= 0, y * y == to_real(x)))
@@ -1421,12 +1424,30 @@ def np_dot(eng, a, b):
 @B('norm')
 def np_norm(eng, v):
     v = v if isinstance(v, NVec) else NVec(eng.iterate(v))
-    return m_sqrt.fn(eng, np_dot.fn(eng, v, v))
+    d = np_dot.fn(eng, v, v)
+    if isinstance(d, (int, Fraction)):
+        return m_sqrt.fn(eng, d)
+    # a sum of squares is never negative: no domain-error branch (the nonlinear feasibility query is the unstable one)
+    y = z3.Real(eng.fresh('norm'))
+    eng.assume(z3.And(y >= 0, y * y == to_real(d)))
+    for c in v.items:                                   # lemma |v| >= |v_k| (linear help for the solver)
+        eng.assume(z3.And(y >= to_real(c), y >= -to_real(c)))
+    return y
 
 
 @B('np.sum')
 def np_sum(eng, v):
     return b_sum.fn(eng, v.items if isinstance(v, NVec) else v)
+
+
+@B('np.cumsum')
+def np_cumsum(eng, v):
+    items = v.items if isinstance(v, NVec) else list(eng.iterate(v))
+    out, acc = [], 0
+    for x in items:
+        acc = x if not out else binop(eng, ast.Add(), acc, x)
+        out.append(acc)
+    return NVec(out)
 
 
 @B('np.any')
@@ -1479,7 +1500,7 @@ def _fs_exists(eng, p):
 
 
 _np = {
-    'array': np_array, 'zeros': np_zeros, 'ones': np_ones, 'dot': np_dot, 'argmax': np_argmax, 'argmin': np_argmin, 'searchsorted': np_searchsorted, 'sqrt': m_sqrt, 'sum': np_sum, 'any': np_any,
+    'array': np_array, 'zeros': np_zeros, 'ones': np_ones, 'dot': np_dot, 'argmax': np_argmax, 'argmin': np_argmin, 'searchsorted': np_searchsorted, 'sqrt': m_sqrt, 'sum': np_sum, 'any': np_any, 'cumsum': np_cumsum,
     'nan': NAN, 'inf': V.Inf(1), 'float64': b_float, 'abs': b_abs, 'ceil': m_ceil, 'floor': m_floor,
     'pi': None,
     'int8': _DType('int8', True), 'int16': _DType('int16', True), 'int32': _DType('int32', True), 'int64': _DType('int64', True),
